@@ -200,9 +200,6 @@ func runCase(c Case) (res pbt.Result) {
 		switch {
 		case ea.openErr != nil && eb.openErr != nil:
 			res.Class("rejected-at-execute")
-			if os.Getenv("C11_DEBUG") != "" {
-				fmt.Printf("REJ %v :: %s\n", firstLine(ea.openErr), sqlA)
-			}
 		case (ea.openErr != nil) != (eb.openErr != nil):
 			res.Add(pbt.D("layout-exec-accept", "same tokens, different layout: Execute accepts one text only: A=%s err=%v ; B=%s err=%v", short(sqlA), ea.openErr, short(sqlB), eb.openErr))
 		default:
